@@ -309,6 +309,37 @@ def recon_checks(ctx, sp, mr, rng):
                     break
         except Exception as e:
             bad.setdefault("recon-exception", ("non-Cartesian SenseRecon raised %r" % e, {"kind": "impl-exception"}))
+        # a silent first coil (its map is zero) with undersampled Cartesian data and no weights given: the sampling mask is estimated
+        # from ALL channels; and a caller-supplied (Jacobi) preconditioner P for the CG / ADMM solvers
+        mps_d = mps.copy()
+        mps_d[0] = 0
+        msk = np.ones(ish)
+        msk[::2, 0] = 0
+        ksp_d = sp.fft(mps_d * x_true, axes=[-1, -2]) * msk
+        A_d = mr.linop.Sense(mps_d, weights=msk)
+        for name, kw in (("dead-coil", {}), ("dead-coil-batched", {"coil_batch_size": 1})):
+            ctx.count("recon:SenseRecon-" + name, key=(r, name), sample={"ishape": ish, "coils": nc})
+            try:
+                x = mr.app.SenseRecon(ksp_d.copy(), mps_d, lamda=0.1, max_iter=300, show_pbar=False, **kw).run()
+                g = A_d.H(A_d(x) - ksp_d) + 0.1 * x
+                if not np.all(np.isfinite(x)) or np.linalg.norm(g) > 1e-3 * (1 + np.linalg.norm(A_d.H(ksp_d))):
+                    bad.setdefault("senserecon-dead-coil", ("SenseRecon with a silent first coil and an undersampled mask does not minimise the masked objective "
+                                                            "(normal-equation residual %.2e)" % float(np.linalg.norm(g)),
+                                                            {"kind": "oracle", "ishape": ish, "coils": nc, "variant": name}))
+            except Exception as e:
+                bad.setdefault("recon-exception", ("SenseRecon (silent first coil) raised %r" % e, {"kind": "impl-exception"}))
+        dP = 1.0 / (np.sum(np.abs(mps) ** 2, axis=0) + 0.05)
+        for name, kw in (("CG+P", {}), ("ADMM+P", {"solver": "ADMM", "max_iter": 60})):
+            ctx.count("recon:SenseRecon-preconditioned", key=(r, name), sample={"ishape": ish, "coils": nc, "solver": name})
+            try:
+                x = mr.app.SenseRecon(ksp.copy(), mps, lamda=0.05, P=sp.linop.Multiply(ish, dP), show_pbar=False, **dict({"max_iter": 200}, **kw)).run()
+                A = mr.linop.Sense(mps)
+                g = A.H(A(x) - ksp) + 0.05 * x
+                if not np.all(np.isfinite(x)) or np.linalg.norm(g) > 2e-3 * (1 + np.linalg.norm(A.H(ksp))):
+                    bad.setdefault("senserecon-preconditioned", ("SenseRecon(%s) with a Jacobi preconditioner is not a minimiser (normal-equation residual %.2e)"
+                                                                 % (name, float(np.linalg.norm(g))), {"kind": "oracle", "ishape": ish, "coils": nc, "solver": name}))
+            except Exception as e:
+                bad.setdefault("recon-exception", ("preconditioned SenseRecon raised %r" % e, {"kind": "impl-exception"}))
         # scale of the data: the reconstruction is linear in the k-space data, recon(s*y) = s*recon(y), also for tiny s and in single precision
         for sc, dt, tolr in ((1e-9, np.complex128, 1e-5), (1e-12, np.complex128, 1e-5), (1e-6, np.complex64, 2e-3)):
             ctx.count("recon:SenseRecon-scaled", key=(r, sc, str(dt)), sample={"ishape": ish, "coils": nc, "scale": sc, "dtype": np.dtype(dt).name})
